@@ -67,9 +67,12 @@ def gen_points(tape, n, dim, dtype, jitter=True):
             X = g.astype(dt)
         if len({r.tobytes() for r in X}) == n:
             return np.ascontiguousarray(X)
-    # fall back: force distinctness on the first coordinate
-    X[:, 0] = (np.arange(n) * 3 + X[:, 0]).astype(dt)
-    return np.ascontiguousarray(X)
+    # fall back: force distinctness on the first coordinate (grid values span < 12, jitter < 0.25)
+    X = X.astype(np.float64)
+    X[:, 0] = np.arange(n) * 13 + (X[:, 0] % 12)
+    X = np.ascontiguousarray(X.astype(dt))
+    assert len({r.tobytes() for r in X}) == n
+    return X
 
 
 def gen_lengths(tape, n_traj, max_len=9):
